@@ -150,7 +150,7 @@ fn sequential_sweep(rep: &Report, placement: &str, edges: &Mutex<BTreeSet<String
         let out = crate::seed::on_fresh_thread(move || {
             let db = Arc::new(FixtureDatabase::new());
             for (i, f) in ws2.files.iter().enumerate() {
-                if f.plugin {
+                if f.plugin || f.is_third_party() {
                     db.plugin_fixture_files.insert(ws2.path(i), ());
                 }
             }
@@ -188,6 +188,61 @@ fn sequential_sweep(rep: &Report, placement: &str, edges: &Mutex<BTreeSet<String
         }
     }
     (ops_total, points_total)
+}
+
+/// Cache pressure in ONE model thread: more files than the file cache holds, so that the eviction
+/// path runs inside `analyze_file`; queries and closes in between. A same-thread conflicting
+/// re-acquisition is a deadlock state of the scheduler.
+fn pressure_sweep(rep: &Report, placement: &str) -> (u64, u64) {
+    install_file_lock_hook();
+    let n = 2100usize;
+    let count = Arc::new(Mutex::new(0u64));
+    let cur = Arc::new(Mutex::new(String::new()));
+    let (count2, cur2) = (count.clone(), cur.clone());
+    let out = crate::seed::on_fresh_thread(move || {
+        let db = Arc::new(FixtureDatabase::new());
+        db.analyze_file(PathBuf::from(format!("{}/conftest.py", ROOT)), "import pytest\n\n@pytest.fixture\ndef ev():\n    return 1\n");
+        let names = lock_names(&db);
+        let body: vsched::Body = Box::new(move || {
+            let text = "def test_e(ev):\n    pass\n";
+            for i in 0..n {
+                let p = PathBuf::from(format!("{}/d{}/test_e.py", ROOT, i));
+                *cur2.lock().unwrap() = format!("analyze_file #{} (file cache holds {} entries)", i + 1, db.file_cache.len());
+                db.analyze_file(p.clone(), text);
+                *count2.lock().unwrap() += 1;
+                if i % 500 == 499 || i >= 1995 && i < 2010 {
+                    *cur2.lock().unwrap() = format!("queries after analyze_file #{}", i + 1);
+                    let _ = db.get_available_fixtures(&p);
+                    let _ = db.find_fixture_definition(&p, 0, 11);
+                    let _ = db.detect_fixture_cycles();
+                    *count2.lock().unwrap() += 3;
+                }
+                if i == 2050 {
+                    *cur2.lock().unwrap() = "cleanup_file_cache after eviction".to_string();
+                    db.cleanup_file_cache(&p);
+                    *count2.lock().unwrap() += 1;
+                }
+            }
+        });
+        vsched::run_execution(vec![body], vsched::ExecConfig { light: true, choices: vec![], horizon: usize::MAX, lock_names: names, watchdog: Duration::from_secs(60) })
+    });
+    let case = || json!({"pressure_sweep": true, "placement": placement, "operation": cur.lock().unwrap().clone()});
+    match &out.abort {
+        Some(vsched::Abort::Deadlock(d)) => {
+            let op = cur.lock().unwrap().clone();
+            rep.violation(&format!("self-deadlock in a single thread under cache pressure [{}]", placement), &format!("operation `{}` re-acquires a shard lock it already holds: {}", op, d), case);
+        }
+        Some(vsched::Abort::Unmodelled(m)) => rep.machinery_error(&format!("pressure sweep: {}", m)),
+        Some(a) => {
+            rep.violation("pressure sweep aborted", &format!("{:?}", a), case);
+        }
+        None => {}
+    }
+    if !out.panics.is_empty() {
+        rep.violation("panic in the pressure sweep", &format!("{:?} during `{}`", out.panics, cur.lock().unwrap()), case);
+    }
+    let c = *count.lock().unwrap();
+    (c, out.points as u64)
 }
 
 // ------------------------------------------------------------------ (a)(ii) concurrent mixes
@@ -417,6 +472,10 @@ pub fn run(rep: &'static Report) {
         sweep_ops_total += ops;
         total_points += pts;
         println!("  sequential sweep [{}]: {} operations, {} lock acquisitions, no self-deadlock reported above = none found", pname, ops, pts);
+        let (pops, ppts) = pressure_sweep(rep, pname);
+        sweep_ops_total += pops;
+        total_points += ppts;
+        println!("  cache-pressure sweep [{}]: {} operations (2100 files, eviction inside analysis), {} lock acquisitions", pname, pops, ppts);
         for (sc, bound) in mixes(thorough) {
             let stats = explore_scenario(rep, &sc, pname, bound, 2_000_000, &|r, choices| {
                 let case = || json!({"scenario": describe(&sc), "placement": pname, "choices": choices, "trace": vsched::trace_to_strings(&r.outcome)});
